@@ -371,6 +371,12 @@ func execBloom(c Case) string {
 		// ONE block object for all the proofs of this case: its transaction wrappers memoise their hashes, and the
 		// leaf hashes of a proof are those memo objects - a builder must not write into them
 		theBlock := bchutil.NewBlock(blk)
+		if n > 0 && salt%2 == 0 {
+			// a caller has looked at single transactions first (the block's lazily filled wrapper cache is then partly
+			// populated): the builders still see the whole block
+			theBlock.TxHash(int(salt) % n)
+			theBlock.Tx(0)
+		}
 		m, idx := merkleblock.NewMerkleBlockWithTxnSet(theBlock, set)
 		res := mmsgTok(m) + " " + u32List(idx) + " " + extractTok(m)
 		// a proof that was handed out stays what it was while later proofs are built (other subsets, other blocks)
